@@ -113,6 +113,10 @@ def _variants(case, rng):
         if spec.dtype in ('bool', '<U5'):
             out.append(('dtype_object', base.astype(object)))
         out.append(('empty', sf.Series((), dtype=base.values.dtype)))
+        # the same labels in another representation that equality (without dtype / class comparison) may regard as equal:
+        # whenever == answers True for two HE containers their hashes have to agree
+        for tag, idx in _relabelled_indices(base.index, spec.kind):
+            out.append((tag, sf.SeriesHE(base.values, index=idx, name=base.name)))
         return out
     if kind in ('frame', 'bus'):
         spec = case['spec']
@@ -170,6 +174,10 @@ def _variants(case, rng):
                 out.append(('index_renamed', base.relabel(index=base.index.rename('IDX'))))
         if nc:
             out.append(('no_rows', base.iloc[:0]))
+        for tag, idx in _relabelled_indices(base.index, spec.row_kind):
+            out.append((tag, base.relabel(index=idx).to_frame_he()))
+        for tag, idx in _relabelled_indices(base.columns, spec.col_kind):
+            out.append((tag + '_columns', base.relabel(columns=idx).to_frame_he()))
         return out
     if kind == 'index':
         k, labels = case['ikind'], case['labels']
@@ -207,6 +215,27 @@ def _variants(case, rng):
     changed = [tuple(t) for t in labels]
     changed[-1] = changed[-1][:-1] + ('ZZZ',)
     out.append(('leaf_changed', sf.IndexHierarchy.from_labels(changed)))
+    return out
+
+
+def _relabelled_indices(index, kind):
+    """[(tag, index)] holding the labels of `index` in other dtypes / index classes."""
+    import static_frame as sf
+    out = []
+    if not len(index):
+        return out
+    if kind == 'IndexDate':
+        arr = index.values
+        out.append(('he_index_second', sf.IndexSecond(arr.astype('M8[s]'))))
+        out.append(('he_index_nanosecond', sf.IndexNanosecond(arr.astype('M8[ns]'))))
+        out.append(('he_index_plain_dt64_h', sf.Index(arr.astype('M8[h]'))))
+    elif kind in ('int', 'auto', 'negint'):
+        arr = index.values
+        if arr.dtype.kind == 'i' and bool((np.abs(arr) < 2 ** 31).all()):
+            out.append(('he_index_float', sf.Index(arr.astype(float))))
+            out.append(('he_index_object', sf.Index(arr.astype(object))))
+    elif kind == 'str':
+        out.append(('he_index_object', sf.Index(index.values.astype(object))))
     return out
 
 
